@@ -904,6 +904,13 @@ def _rules_core(repo, tier):
                                            'path): converting the same tensor twice gives the same element', t)]
 
 
+@guarded
+def rule_shape(repo):
+    from .c06 import euler_shape_clause
+    res = RuleResult('C11.SHAPE', 'euler2SO3 views its result with the batch shape its argument had before it was flattened to (-1, 3): every batch rank keeps its shape', floor=1)
+    return euler_shape_clause(repo, res, 'C11.SHAPE')
+
+
 def rules(repo, tier):
     from ..memo import rule_memo
     from ..optional import rule_optional
@@ -911,7 +918,7 @@ def rules(repo, tier):
     from ..callsig import rule_callsig
     from ..docsig import rule_docsig
     from ..axisdefault import rule_axisdefault
-    return list(_rules_core(repo, tier)) + [rule_memo(repo, 'C11.MEMO', 'history independence: nothing computed from the contents of a tensor argument is kept '
+    return list(_rules_core(repo, tier)) + [rule_shape(repo), rule_memo(repo, 'C11.MEMO', 'history independence: nothing computed from the contents of a tensor argument is kept '
                                                       'under the identity, address or version of that tensor, in module-level storage, or published from a generator '
                                                       'before it is complete - a later call with the same object and other contents must not be answered from it',
                                                       ['pypose.lietensor.convert'], floor=3),
